@@ -14,7 +14,7 @@ PROPS = {
         "technique": "deterministic simulation: seeded interleavings of pushers and poppers (yield hooks open the signal/lock windows), "
                      "history checked for linearizability against a bounded drop-oldest FIFO (porcupine) + wake-up state invariant",
         "design_ref": "DESIGN.md §6 C46",
-        "quick": {"runs": 40000, "seconds": 40},
+        "quick": {"runs": 20000, "seconds": 40},
         "thorough": {"runs": 1500000, "seconds": 420},
         "rule": "one evaluation = one generated workload (capacity 1-5, max batch 1-4, 2-4 pushers with 1-3 pushes each of sizes around "
                 "the capacity, 1-2 poppers, relabel config none/drop/keep) under one seeded schedule; every Push/Pop/Len is recorded "
